@@ -142,6 +142,11 @@ func evalProgram(p progSpec, stepIdx int, req *fnv1.RunFunctionRequest) *fnv1.Ru
 		ctx.Fields[p.CtxKey] = structpb.NewStringValue(fmt.Sprintf("step%d/des%d/extra%d", stepIdx, len(d.Resources), len(req.GetExtraResources())))
 	}
 	rsp := &fnv1.RunFunctionResponse{Desired: d, Context: ctx}
+	if p.DropCtx && p.CtxKey == "" && stepIdx%2 == 1 {
+		// a function that builds its response from scratch returns NO context at all (not an
+		// empty one): the next step starts from an empty context all the same
+		rsp.Context = nil
+	}
 	byName := func(n string) *fnv1.ResourceSelector {
 		return &fnv1.ResourceSelector{ApiVersion: "nop.ex.org/v1", Kind: "EnvThing", Match: &fnv1.ResourceSelector_MatchName{MatchName: n}}
 	}
@@ -170,6 +175,18 @@ func evalProgram(p progSpec, stepIdx int, req *fnv1.RunFunctionRequest) *fnv1.Ru
 			rsp.Requirements = &fnv1.Requirements{ExtraResources: map[string]*fnv1.ResourceSelector{"gold": byLabels}}
 		} else {
 			rsp.Requirements = &fnv1.Requirements{ExtraResources: map[string]*fnv1.ResourceSelector{"one": byName("env-3")}}
+		}
+		ctx.Fields[flag] = structpb.NewStringValue("yes")
+	case "name-then-none":
+		// round 1 asks for one by name; once its context says it was asked, requires nothing any
+		// more: the requirements changed (to nothing), so the function must be run once more,
+		// this time WITHOUT the resources of the dropped requirement
+		flag := fmt.Sprintf("asked-%d", stepIdx)
+		if _, ok := req.GetContext().GetFields()[flag]; !ok {
+			rsp.Requirements = &fnv1.Requirements{ExtraResources: map[string]*fnv1.ResourceSelector{"one": byName("env-1")}}
+		}
+		if rsp.Context == nil {
+			rsp.Context = ctx
 		}
 		ctx.Fields[flag] = structpb.NewStringValue("yes")
 	case "name-then-labels":
@@ -240,7 +257,7 @@ func genCase(c *kit.Ctx, i int) tcase {
 			p.CtxKey = fmt.Sprintf("k%d", r.IntN(3))
 		}
 		p.DropCtx = r.IntN(6) == 0
-		p.Req = []string{"", "", "name", "labels", "name-then-labels", "absent", "labels-then-name", "labels-narrowing"}[r.IntN(8)]
+		p.Req = []string{"", "", "name", "labels", "name-then-labels", "absent", "labels-then-name", "labels-narrowing", "name-then-none"}[r.IntN(9)]
 		p.Result = []string{"", "normal", "warning"}[r.IntN(3)]
 		if r.IntN(3) == 0 {
 			p.Cond = fmt.Sprintf("Custom%d", r.IntN(2))
@@ -358,7 +375,7 @@ func normalize(req *fnv1.RunFunctionRequest) *fnv1.RunFunctionRequest {
 		r.Meta = nil
 	}
 	// empty vs nil containers are the same on the wire
-	if r.Context != nil && len(r.Context.Fields) == 0 {
+	if r.Context == nil || len(r.Context.Fields) == 0 {
 		r.Context = &structpb.Struct{}
 	}
 	return r
